@@ -114,6 +114,10 @@ def run(chk):
       for k, v in r['observation'].items():
         if v != r['base_out']:
           chk.violation('oracle', 'an observation feature (%s) changed the primary output' % k, {'case': c, 'base': r['base_out'], 'with_feature': v})
+    cn = r.get('capture_native')
+    if cn is not None and (cn['err'] or not cn['out_same'] or not cn['state_same']):
+      chk.violation('oracle', 'apply(..., capture_intermediates=True) with the caller\'s own `mutable` (%s) raised, changed the primary output, or returned other collections / values besides '
+                    '\'intermediates\' than the same apply without it' % (c['mutable'],), {'case': c, 'observed': cn})
     env_ap = LP.cenv(c['prog'], c['mutable'], c['streams'])
     row_ap = '(agree %s %s %s %s %s)' % (env_ap, top, LP.cvtree(r['apply_vars_in']), x, cexp(ap, c['mutable'] is not False))
     coq.append((c, o, '(%s && %s)' % (row_init, row_ap)))
@@ -126,6 +130,15 @@ def run(chk):
                   'theorems C01_* no longer transfer', {'case': c, 'observed': {k: v for k, v in o['ok'].items() if k in ('init', 'apply', 'apply_vars_in')}})
   chk.cov['traces_validated_against_impl'] = len(coq)
   chk.notes['outcomes'] = stats
+  # init / apply on bound instances and with bound modules in dataclass fields
+  bc = [{'count': cnt, 'w': rng.randint(2, 5), 'x': rng.randint(1, 4), 'inner_calls': ic} for cnt in (False, True) for ic in (1, 2)]
+  for c, o in zip(bc, common.run_impl('impl_c01.py', {'bound': bc}, timeout=900)['bound']):
+    chk.count({'bound_modules': c}, True)
+    if 'err' in o:
+      chk.violation('oracle', 'init / apply on a bound module (or with a bound module in a field) raised: %s' % o['err'], {'case': c, 'tb': o.get('tb')})
+    elif not all(o['ok'].values()):
+      chk.violation('oracle', 'init / apply depend on, or change, a pre-existing binding of the module passed in: %s' % ', '.join(k for k, v in o['ok'].items() if not v),
+                    {'case': c, 'observed': o['ok']})
   # dict-valued variables whose first value is an argument of init (F33)
   dv = [{'depth': d, 'writes': w, 'child': ch, 'val': rng.randint(0, 5)} for d in (0, 1, 2) for w in (1, 2) for ch in (False, True)]
   for c, o in zip(dv, common.run_impl('impl_c01.py', {'dict_valued': dv}, timeout=900)['dict_valued']):
